@@ -4,7 +4,7 @@
      others:    impl = model q  for q = claimed vector, claimed minus each flag, ideal ;  law holds for model q, same order
      domains:   the embedding lies in the domain of the detector's locality / renaming theorem *)
 From TL Require Import Lib.Base Lib.GenTypes Gen.EmbedGen Model.Embed Model.PrintStmt Model.PerfConcat Model.StatelessCls
-     Model.MethodProp Gen.Embed2Gen Model.CondVerbose Model.EmbedRun.
+     Model.MethodProp Gen.Embed2Gen Model.CondVerbose Model.RegexLoop Model.EmbedRun.
 
 Definition sq_without (i : nat) (q : squirks) : squirks :=
   match i with
@@ -26,9 +26,15 @@ Definition vq_candidates (q : vquirks) : list vquirks := [q; mkVQ false; v_ideal
 Definition cv_outs (q : vquirks) (file : list ast) : list (list rep) := map (fun c => cv_reports c file) (vq_candidates q).
 Definition cv_msgs (o : list rep) : list irep := map (fun r => match r with (l, _, _, _) => (l, cv_column, cv_message_of r) end) o.
 
-Record allouts := mkO { o_pr : list rep; o_cc : list (list rep); o_sl : list (list rep); o_mp : list (list rep); o_cv : list (list rep) }.
-Definition all_outs (qc : cquirks) (qs : squirks) (qm : mquirks) (qv : vquirks) (file : list ast) : allouts :=
-  mkO (print_default file) (outs qc file) (sl_outs qs file) (mp_outs qm file) (cv_outs qv file).
+(* regex-in-loop *)
+Definition rq_candidates (q : rquirks) : list rquirks := [q; mkRQ false; r_ideal].
+Definition rx_outs (q : rquirks) (file : list ast) : list (list rep) := map (fun c => rx_reports c file) (rq_candidates q).
+Definition rx_msgs (o : list rep) : list irep := map (fun r => match r with (l, c, _, _) => (l, c, rx_message_of r) end) o.
+
+Record allouts := mkO { o_pr : list rep; o_cc : list (list rep); o_sl : list (list rep); o_mp : list (list rep); o_cv : list (list rep);
+                        o_rx : list (list rep) }.
+Definition all_outs (qc : cquirks) (qs : squirks) (qm : mquirks) (qv : vquirks) (qr : rquirks) (file : list ast) : allouts :=
+  mkO (print_default file) (outs qc file) (sl_outs qs file) (mp_outs qm file) (cv_outs qv file) (rx_outs qr file).
 
 (* under a renaming, the identifiers a report carries are renamed: `ren` says which components are identifiers *)
 Definition renameR2 (sg : string -> string) (r : rep) : rep := match r with (l, c, p, x) => (l, c, sg p, sg x) end.
@@ -47,30 +53,38 @@ Definition sl_names : list string :=
 (* a renaming leaves the method-property name tests alone: dunder / action-verb status of every renamed name is kept *)
 Definition mp_names_kept (sg : list (string * string)) : bool :=
   forallb (fun p => Bool.eqb (is_dunder (fst p)) (is_dunder (snd p)) && Bool.eqb (is_action_verb (fst p)) (is_action_verb (snd p))) sg.
+(* renamings in the domain of the regex renaming theorem: one-to-one on the identifiers of the fragment, new names fresh, none of
+   the fixed names (re, compile, the re functions) touched or produced *)
+Definition rx_rename_dom (sg : list (string * string)) (frag : list ast) : bool :=
+  avoids rx_fixed_names sg && nodupb (map snd sg) && forallb (fun p => negb (smem (snd p) (flat_map idents frag))) sg.
 Definition domains (e : emb) (frag : list ast) : list bool :=
   in_domain e frag
   ++ match e with
-     | EPlug c => [sl_ctx_ok c; mp_ctx_ok c; cv_ctx_ok c]
-     | ECopies _ _ => [true; true; true]
-     | ERename sg => [avoids sl_names sg; avoids [mp_self_name] sg && mp_names_kept sg; cv_names_kept sg && avoids [cv_get_name] sg]
+     | EPlug c => [sl_ctx_ok c; mp_ctx_ok c; cv_ctx_ok c; rx_ctx_ok c]
+     | ECopies _ _ => [true; true; true; true]
+     | ERename sg => [avoids sl_names sg; avoids [mp_self_name] sg && mp_names_kept sg; cv_names_kept sg && avoids [cv_get_name] sg;
+                      rx_rename_dom sg frag]
      end.
 
-Definition judge_embed2 (qc : cquirks) (qs : squirks) (qm : mquirks) (qv : vquirks) (e : emb) (frag : list ast) (iso : allouts)
-           (impl_pr impl_cc impl_sl impl_mp impl_cv : list irep) : list (list bool) :=
+Definition judge_embed2 (qc : cquirks) (qs : squirks) (qm : mquirks) (qv : vquirks) (qr : rquirks) (e : emb) (frag : list ast) (iso : allouts)
+           (impl_pr impl_cc impl_sl impl_mp impl_cv impl_rx : list irep) : list (list bool) :=
   let X := embed e frag in
-  let xo := all_outs qc qs qm qv X in
-  let fo := all_outs qc qs qm qv (filler_of e) in
+  let xo := all_outs qc qs qm qv qr X in
+  let fo := all_outs qc qs qm qv qr (filler_of e) in
   [ [same_i impl_pr (pr_msgs (o_pr xo)); same_reps (o_pr xo) (predicted e (o_pr iso) (o_pr fo))];
     det_bits e cc_msgs impl_cc (o_cc xo) (o_cc iso) (o_cc fo);
     det_bits e sl_msgs impl_sl (o_sl xo) (o_sl iso) (o_sl fo);
     det_bits_r renameR2 e mp_msgs impl_mp (o_mp xo) (o_mp iso) (o_mp fo);
     det_bits e cv_msgs impl_cv (o_cv xo) (o_cv iso) (o_cv fo);
+    det_bits e rx_msgs impl_rx (o_rx xo) (o_rx iso) (o_rx fo);
     domains e frag ].
 
-Definition judge_iso2 (qc : cquirks) (qs : squirks) (qm : mquirks) (qv : vquirks) (iso : allouts) (impl_pr impl_cc impl_sl impl_mp impl_cv : list irep)
+Definition judge_iso2 (qc : cquirks) (qs : squirks) (qm : mquirks) (qv : vquirks) (qr : rquirks) (iso : allouts)
+           (impl_pr impl_cc impl_sl impl_mp impl_cv impl_rx : list irep)
   : list (list bool) :=
   [ [same_i impl_pr (pr_msgs (o_pr iso))];
     map (fun o => same_i impl_cc (cc_msgs o)) (o_cc iso);
     map (fun o => same_i impl_sl (sl_msgs o)) (o_sl iso);
     map (fun o => same_i impl_mp (mp_msgs o)) (o_mp iso);
-    map (fun o => same_i impl_cv (cv_msgs o)) (o_cv iso) ].
+    map (fun o => same_i impl_cv (cv_msgs o)) (o_cv iso);
+    map (fun o => same_i impl_rx (rx_msgs o)) (o_rx iso) ].
